@@ -22,8 +22,10 @@
 (*     SvcRunGroup(n,G) supervisor.Run / RunGroup                          *)
 (*     SvcHealthy(n), SvcDone(n)   supervisor.Signal                       *)
 (*     SvcSawCancel(n)  the runnable observes ctx.Done()                   *)
-(*     SvcExit(n,k)     the runnable returns (k = "err" | "nil" | "ctxErr")*)
-(*                      or panics with panic capture on (k = "panic")      *)
+(*     SvcExit(n,k)     the runnable returns (k = "err" | "nil" | "ctxErr" |*)
+(*                      "canceled" | "wrapcanceled" | "deadline": errors   *)
+(*                      that merely LOOK like a cancellation) or panics    *)
+(*                      with panic capture on (k = "panic")                *)
 (*   environment: Kill  cancel the context given to supervisor.New         *)
 (*                                                                         *)
 (* The specification describes the behaviour property C18 requires.  It   *)
@@ -84,7 +86,13 @@ Live(n) == own[n] /\ \A a \in Anc(n) : own[a]
 ParentLive(n) == shape.par[n] = Nil \/ Live(shape.par[n])
 
 Exists(n) == st[n] # "ABSENT"
-Kinds == {"err", "nil", "panic", "ctxErr"}
+\* result kinds of a runnable.  "ctxErr": it returns ctx.Err() of its own context after seeing it cancelled.
+\* "canceled" / "wrapcanceled" / "deadline": it returns context.Canceled, an error wrapping context.Canceled, or
+\* context.DeadlineExceeded that do NOT come from its supervisor context (a sub-context of its own, another context).
+SpontaneousKinds == {"err", "nil", "panic", "canceled", "wrapcanceled", "deadline"}
+Kinds == SpontaneousKinds \cup {"ctxErr"}
+\* results whose innermost error equals context.Canceled, i.e. ctx.Err() of a cancelled supervisor context
+LooksCancelled == {"ctxErr", "canceled", "wrapcanceled"}
 
 Init0(sh) ==
     /\ shape = sh
@@ -116,7 +124,8 @@ BackoffElapsed(n) ==
 
 DiedOutcome(n) ==
     IF st[n] = "DONE" /\ res[n] = "nil" THEN "leave"
-    ELSE IF res[n] = "ctxErr" /\ ~Live(n) THEN "CANCELED"
+    ELSE IF res[n] \in LooksCancelled /\ ~Live(n) THEN "CANCELED"     \* only if the node's context really is cancelled:
+                                                                    \* with a live context such an error is a death like any other
     ELSE "DEAD"
 
 ProcessDied(n) ==
@@ -206,7 +215,7 @@ SvcSawCancel(n) ==
     /\ UNCHANGED <<shape, st, own, pc, res, todo, sched, running, supLive, procUp, dirty>>
 
 SvcExit(n, k) ==
-    /\ \/ pc[n] = "run" /\ k \in {"err", "nil", "panic"}
+    /\ \/ pc[n] = "run" /\ k \in SpontaneousKinds
        \/ pc[n] = "run" /\ k = "ctxErr" /\ sawc[n]          \* returns ctx.Err() of a context it saw cancelled
        \/ pc[n] = "doneret" /\ k = "nil"
     /\ pc' = [pc EXCEPT ![n] = "exited"]
